@@ -15,8 +15,8 @@ SPEC = {
         "all defect classes found so far are repaired in /repo: nothing is masked or excluded any more, replays/C15/*.json are regression cases; the answer of UpdateNodeTmpIndexCommand (it depends on the non-persisted DataNode.Index) is exempt from the A/C answer comparison",
     ],
     "campaigns": [
-        {"name": "converge", "run": "^TestConverge$", "quick": B(2000, 5), "thorough": B(25000, 9, 3000)},
-        {"name": "converge_catalogue", "run": "^TestConvergeCatalogue$", "quick": B(1200, 3), "thorough": B(25000, 6, 3000)},
+        {"name": "converge", "run": "^TestConverge$", "quick": B(2000, 5), "thorough": B(12000, 9, 3000)},
+        {"name": "converge_catalogue", "run": "^TestConvergeCatalogue$", "quick": B(1200, 3), "thorough": B(12000, 6, 3000)},
     ],
 }
 
